@@ -2,6 +2,7 @@ package roundtrip
 
 import (
 	"fmt"
+	"strconv"
 	"strings"
 
 	"github.com/tobgu/qframe"
@@ -224,8 +225,8 @@ func isNaNText(cell string) bool {
 	if !strings.HasPrefix(cell, "f:") {
 		return false
 	}
-	var bits uint64
-	if _, err := fmt.Sscanf(cell[2:], "%x", &bits); err != nil {
+	bits, err := strconv.ParseUint(cell[2:], 16, 64)
+	if err != nil {
 		return false
 	}
 	return bits&0x7ff0000000000000 == 0x7ff0000000000000 && bits&0x000fffffffffffff != 0
